@@ -90,6 +90,8 @@ Proof.
 Qed.
 
 (* ================= with_timeout ================= *)
+Ltac qd := repeat match goal with |- context [is_quiet ?q ?e] => destruct (is_quiet q e) end.
+
 Record TInv (v : verdict) (C : Prop) (w : tstate) : Prop := {
   ti_err : t_err w = 0;
   ti_tasks : In TCopy (t_ready w) \/ In TErrCb (t_ready w) -> t_a w <> None;
@@ -107,7 +109,7 @@ Proof.
   intros H [E T S P]. constructor; auto. intros o Ho. destruct (S o Ho) as [X|[X Y]]; auto.
 Qed.
 
-Lemma t_create_inv a : TInv (v_init a) False (t_create a).
+Lemma t_create_inv qs a : TInv (v_init a) False (t_create qs a).
 Proof.
   unfold t_create. destruct a as [o|]; simpl.
   - destruct o; constructor; simpl; auto.
@@ -121,7 +123,7 @@ Qed.
 Lemma t_copy_a w : t_a (t_copy w) = t_a w.
 Proof. unfold t_copy, t_set_r. destruct (t_r w); auto. destruct (t_a w) as [[?|?|]|] eqn:?A; auto. Qed.
 Lemma t_errlog_a w : t_a (t_errlog w) = t_a w.
-Proof. unfold t_errlog. destruct (t_a w) as [[?|[]|]|] eqn:?A; auto. Qed.
+Proof. unfold t_errlog. destruct (t_a w) as [[?|[]|]|] eqn:?A; qd; auto. Qed.
 Lemma t_timeout_cb_a w : t_a (t_timeout_cb w) = t_a w.
 Proof.
   unfold t_timeout_cb, t_set_r. destruct (t_r w); simpl.
@@ -138,8 +140,8 @@ Proof.
   destruct k; simpl; auto.
   - unfold t_copy, t_set_r. destruct (t_r w); auto. destruct (t_a w) as [[?|?|]|] eqn:?A; auto.
   - destruct (t_cancelled w); simpl; auto.
-    unfold t_timeout_cb, t_set_r. destruct (t_r w); simpl; destruct (t_a w) as [[?|[]|]|] eqn:?A; auto.
-  - unfold t_errlog. destruct (t_a w) as [[?|[]|]|] eqn:?A; auto.
+    unfold t_timeout_cb, t_set_r, t_errlog. destruct (t_r w); simpl; destruct (t_a w) as [[?|[]|]|] eqn:?A; simpl; qd; auto.
+  - unfold t_errlog. destruct (t_a w) as [[?|[]|]|] eqn:?A; qd; auto.
 Qed.
 Lemma t_run_task_r w k :
   (k = TCopy -> t_a w <> None) ->
@@ -158,8 +160,8 @@ Proof.
     destruct (t_a w) as [[?|?|]|] eqn:?A; simpl; auto; congruence.
   - destruct (t_r w); auto.
   - destruct (t_cancelled w); simpl; [destruct (t_r w); auto|].
-    unfold t_timeout_cb, t_set_r; simpl. destruct (t_r w) eqn:R; simpl; destruct (t_a w) as [[?|[]|]|] eqn:?A; simpl; auto.
-  - unfold t_errlog. destruct (t_a w) as [[?|[]|]|] eqn:?A; simpl; destruct (t_r w); auto.
+    unfold t_timeout_cb, t_set_r, t_errlog; simpl. destruct (t_r w) eqn:R; simpl; destruct (t_a w) as [[?|[]|]|] eqn:?A; simpl; qd; auto.
+  - unfold t_errlog. destruct (t_a w) as [[?|[]|]|] eqn:?A; simpl; qd; destruct (t_r w); auto.
 Qed.
 Lemma t_run_task_err w k :
   (k = TCopy \/ k = TErrCb -> t_a w <> None) -> t_err (t_run_task w k) = t_err w.
@@ -168,8 +170,8 @@ Proof.
   - unfold t_copy, t_set_r. destruct (t_r w); auto. destruct (t_a w) as [[?|?|]|] eqn:A; simpl; auto.
     exfalso; apply H; auto.
   - destruct (t_cancelled w); simpl; auto.
-    unfold t_timeout_cb, t_set_r; simpl. destruct (t_r w); simpl; destruct (t_a w) as [[?|[]|]|] eqn:?A; simpl; auto.
-  - unfold t_errlog. destruct (t_a w) as [[?|[]|]|] eqn:A; simpl; auto. exfalso; apply H; auto.
+    unfold t_timeout_cb, t_set_r, t_errlog; simpl. destruct (t_r w); simpl; destruct (t_a w) as [[?|[]|]|] eqn:?A; simpl; qd; auto.
+  - unfold t_errlog. destruct (t_a w) as [[?|[]|]|] eqn:A; simpl; qd; auto. exfalso; apply H; auto.
 Qed.
 
 Lemma t_step_Step_inv v C w : TInv v C w -> TInv (v_step v Step) (C \/ Step = CancelOut) (t_step w Step).
@@ -177,7 +179,7 @@ Proof.
   intros I. replace (v_step v Step) with v by (destruct v; reflexivity).
   simpl. destruct (t_ready w) as [|k q] eqn:Q; [eapply TInv_weaken; [|exact I]; auto|].
   destruct I as [E T S P]. rewrite Q in *.
-  set (w0 := mkT (t_a w) (t_r w) q (t_cancelled w) (t_loc w) (t_errcb w) (t_log w) (t_err w)).
+  set (w0 := mkT (t_quiet w) (t_a w) (t_r w) q (t_cancelled w) (t_loc w) (t_errcb w) (t_log w) (t_err w)).
   assert (Hk : k = TCopy \/ k = TErrCb -> t_a w0 <> None).
   { intros [-> | ->]; apply T; simpl; auto. }
   assert (R := t_run_task_r w0 k (fun e => Hk (or_introl e))). simpl in R.
@@ -202,7 +204,7 @@ Qed.
 
 Lemma t_step_inv v C w e : TInv v C w -> TInv (v_step v e) (C \/ e = CancelOut) (t_step w e).
 Proof.
-  intros I. destruct w as [a r q cn loc ec lg er].
+  intros I. destruct w as [qs a r q cn loc ec lg er].
   destruct e as [i o| | | |].
   - (* Complete *)
     destruct i as [|i].
@@ -277,17 +279,17 @@ Proof.
 Qed.
 Lemma t_run_a es : forall w, t_a (t_run w es) = src_final (t_a w) es.
 Proof. induction es as [|e es IH]; intros w; simpl; auto. rewrite IH, t_step_a. auto. Qed.
-Lemma t_create_a a : t_a (t_create a) = a.
+Lemma t_create_a qs a : t_a (t_create qs a) = a.
 Proof. unfold t_create. destruct a; auto. simpl. rewrite t_copy_a. auto. Qed.
 
-Lemma timeout_correct a0 es :
-  let w := t_run (t_create a0) es in
+Lemma timeout_correct qs a0 es :
+  let w := t_run (t_create qs a0) es in
   let v := race a0 es in
   t_err w = 0 /\ t_a w = src_final a0 es /\
   (forall o, t_r w = Some o -> Some o = v_outcome v \/ (o = Cancelled /\ In CancelOut es)) /\
   (t_ready w = [] -> v <> Undecided -> t_r w <> None).
 Proof.
-  simpl. pose proof (t_run_inv es _ _ _ (t_create_inv a0)) as [E T S P].
+  simpl. pose proof (t_run_inv es _ _ _ (t_create_inv qs a0)) as [E T S P].
   fold (race a0 es) in *. split; auto. split; [rewrite t_run_a, t_create_a; auto|]. split.
   - intros o Ho. destruct (S o Ho) as [X|[X [[]|Y]]]; auto.
   - intros Q V Hr. destruct (race a0 es); try congruence.
@@ -318,4 +320,75 @@ Proof.
   - change (t_run w (repeat Step (S n))) with (t_run (t_step w Step) (repeat Step n)).
     apply IH. simpl. destruct (t_ready w) eqn:R; [rewrite R; simpl; lia|].
     rewrite t_run_task_ready. simpl in *. lia.
+Qed.
+
+(* ---------- with_timeout logging: only a loud failure of the input is ever logged ---------- *)
+Definition loud (qs : list qclass) (a : fstate N) : Prop :=
+  exists e, a = Some (Exn e) /\ e <> ECancelled /\ is_quiet qs e = false.
+
+Lemma t_errlog_log w :
+  t_quiet (t_errlog w) = t_quiet w /\
+  (t_log (t_errlog w) = t_log w \/ loud (t_quiet w) (t_a w)).
+Proof.
+  unfold t_errlog. destruct (t_a w) as [[?|e|]|] eqn:A; simpl; auto.
+  destruct e; simpl; auto; destruct (is_quiet (t_quiet w) _) eqn:Q; simpl; auto;
+    split; auto; right; eexists; repeat split; eauto; discriminate.
+Qed.
+
+Lemma t_run_task_log w k :
+  t_quiet (t_run_task w k) = t_quiet w /\
+  (t_log (t_run_task w k) = t_log w \/ loud (t_quiet w) (t_a w)).
+Proof.
+  destruct k; simpl.
+  - unfold t_copy, t_set_r. destruct (t_r w); auto. destruct (t_a w) as [[?|?|]|]; simpl; auto.
+  - auto.
+  - destruct (t_cancelled w); simpl; auto.
+    unfold t_timeout_cb, t_set_r. destruct (t_r w); simpl.
+    + destruct (t_a w) eqn:A; simpl; auto.
+      match goal with |- context [t_errlog ?w1] => destruct (t_errlog_log w1) as [E1 E2] end.
+      simpl in *. auto.
+    + destruct (t_a w) eqn:A; simpl; auto.
+      match goal with |- context [t_errlog ?w1] => destruct (t_errlog_log w1) as [E1 E2] end.
+      simpl in *. auto.
+  - apply t_errlog_log.
+Qed.
+
+Lemma t_step_log w e :
+  t_quiet (t_step w e) = t_quiet w /\
+  (t_log w = 0 \/ loud (t_quiet w) (t_a w) ->
+   t_log (t_step w e) = 0 \/ loud (t_quiet w) (t_a (t_step w e))).
+Proof.
+  destruct e as [i o| | | |]; simpl; auto.
+  - destruct i as [|i]; simpl; auto. destruct (t_a w) eqn:A; simpl; auto.
+    + rewrite A. auto.
+    + split; auto. intros [H|[e [H _]]]; auto. discriminate.
+  - destruct (t_ready w) as [|k r] eqn:R; auto.
+    match goal with |- context [t_run_task ?w1 k] =>
+      destruct (t_run_task_log w1 k) as [E1 E2]; pose proof (t_run_task_a w1 k) as E3 end.
+    simpl in *. rewrite E3. split; auto. intros [H|H]; auto. destruct E2 as [E2|E2]; auto. left; congruence.
+  - destruct (t_loc w); auto. destruct (t_cancelled w); auto.
+Qed.
+
+Lemma t_run_log es : forall w,
+  t_log w = 0 \/ loud (t_quiet w) (t_a w) ->
+  t_quiet (t_run w es) = t_quiet w /\
+  (t_log (t_run w es) = 0 \/ loud (t_quiet w) (t_a (t_run w es))).
+Proof.
+  induction es as [|e es IH]; intros w H; simpl; auto.
+  destruct (t_step_log w e) as [Q S]. specialize (S H).
+  destruct (IH (t_step w e)) as [Q2 S2]. { rewrite Q. auto. }
+  rewrite Q in *. auto.
+Qed.
+
+Lemma timeout_log qs a0 es :
+  let w := t_run (t_create qs a0) es in
+  t_log w = 0 \/
+  exists e, src_final a0 es = Some (Exn e) /\ e <> ECancelled /\ is_quiet qs e = false.
+Proof.
+  simpl.
+  assert (Q0 : t_quiet (t_create qs a0) = qs /\ t_log (t_create qs a0) = 0).
+  { unfold t_create. destruct a0; simpl; auto. unfold t_copy, t_set_r; simpl. destruct o; simpl; auto. }
+  destruct Q0 as [Q0 L0].
+  destruct (t_run_log es (t_create qs a0)) as [_ S]; auto.
+  rewrite Q0, t_run_a, t_create_a in S. exact S.
 Qed.
